@@ -20,7 +20,7 @@ RULE = ("generated .sm texts: 1-4 charts of every keyed chart type (and unkeyed 
         "R in {4,8,12,16,24,32,48,64,96,192} and {20,28,36,40,44,52,60,100} rows (non-multiples of 4 on an out-of-domain stream), symbols 1 2 3 4 M L F K "
         "(well-bracketed per column on the main stream, arbitrary on a side stream), comment and blank lines, "
         "1-5 tempo changes on 1/16-beat decimals (other decimals out of domain), #OFFSET of both signs, "
-        "shuffled string tags, malformed texts compared on the error class; non-trivial = at least one tempo change "
+        "shuffled string tags, rows wider than the library's key table (dance-couple 8 columns, +1/2/4 columns), a quarter of the cases through read_file on LF / CRLF / bare-CR files, malformed texts compared on the error class; non-trivial = at least one tempo change "
         "after beat 0 with an object behind it, or a hold/roll, or >= 2 charts")
 ASSUMPTIONS = [
     "numbers in the text follow [ws][+-]digits[.digits][e[+-]digits][ws] (Python's inf/nan/1_0 forms are outside the model)",
@@ -47,6 +47,9 @@ ATTR = dict(TITLE="title", SUBTITLE="subtitle", ARTIST="artist", TITLETRANSLIT="
 WORDS = ["Song", "a b", "Ünï", "日本", "x-1", "mix (v2)", "", "A", "file.ogg", "bg.png", "120", "Hard", "Edit", "the end."]
 DIFFS = ["Beginner", "Easy", "Medium", "Hard", "Challenge", "Edit"]
 TAPS = "1MLFK"
+EOLS = dict(lf="\n", crlf="\r\n", cr="\r")
+# the columns of a chart are the characters of its rows; for these types the library's key table is narrower than the rows
+WIDTH = dict(KEYED, **{"dance-couple": 8})
 
 
 # ------------------------------------------------------------------------------------------ rendering
@@ -136,7 +139,9 @@ def decorate(rng, rows, p):
 def gen_chart(rng, stream, small):
     if rng.random() < 0.8:
         typ = rng.choice(sorted(KEYED))
-        keys = KEYED[typ]
+        keys = WIDTH[typ]
+        if rng.random() < 0.1:
+            keys = min(18, keys + rng.choice([1, 2, 4]))      # rows wider than the table's key count
     else:
         typ = rng.choice(sorted(UNKEYED))
         keys = UNKEYED[typ]
@@ -228,6 +233,8 @@ def gen(rng, tier, i):
     for c in charts:
         items.append(["chart", c])
     case = dict(claim="read", stream=stream, items=items)
+    if rng.random() < 0.25:
+        case["eol"] = rng.choice(["lf", "crlf", "cr"])
     if stream == "errors":
         damage(rng, case)
     if stream == "comments":
@@ -313,6 +320,12 @@ def corpus():
          dict(claim="read", stream="errors", text="#OFFSET:0;\n#STOPS:;\n#BPMS:0=120;\n#NOTES:\n dance-single:\n :\n Hard:\n 1:\n 0:\n1000\n;\n"),
          dict(claim="read", stream="errors", text="#TITLE;\n"),
          dict(claim="read", stream="main", text="#OFFSET:0;\n#BPMS:0=120;\n#STOPS:;\n"),
+         # classic-Mac and DOS line ends through read_file (universal newlines)
+         dict(claim="read", stream="main", eol="cr", text=base % "#STOPS:;\n"),
+         dict(claim="read", stream="main", eol="crlf", text=base % "#STOPS:;\n"),
+         # dance-couple rows have 8 columns although the library's key table says 4: every column is returned
+         dict(claim="read", stream="main", text=(
+             "#OFFSET:0;\n#BPMS:0=120;\n#STOPS:;\n#NOTES:\n dance-couple:\n :\n Hard:\n 1:\n 0:\n10000001\n00002000\n0M003000\n0000010K\n;\n")),
          ]
     return c
 
@@ -322,7 +335,7 @@ SAFE = set("abcdefghijklmnopqrstuvwxyzABCDEFGHIJKLMNOPQRSTUVWXYZ0123456789 .-()_
 
 def valid(case):
     try:
-        if case.get("claim") != "read":
+        if case.get("claim") != "read" or case.get("eol") not in (None, "lf", "crlf", "cr"):
             return False
         if "text" in case:
             return isinstance(case["text"], str) and "\\" not in case["text"] and "\r" not in case["text"]
@@ -384,11 +397,11 @@ def _fin(x):
     return Fr(x)
 
 
-def impl_read(text):
+def impl_read(text, path=None):
     from reamber.sm.SMMapSet import SMMapSet
     logging.disable(logging.WARNING)
     try:
-        ms = SMMapSet.read(text)
+        ms = SMMapSet.read(text) if path is None else SMMapSet.read_file(path)
     except Exception as e:
         return ("err", err_class(e), type(e).__name__ + ": " + str(e)[:200])
     try:
@@ -488,9 +501,26 @@ def run(case, drv):
     text = render(case)
     stream = case.get("stream", "main")
     tags = [stream]
-    impl = impl_read(text)
-    model = drv.call("c02.read", text=text)
-    den = drv.call("c02.denote", text=text)["ok"]
+    eol = case.get("eol")
+    if eol:
+        # through SMMapSet.read_file on a temporary file with LF / CRLF / bare-CR line ends
+        import os
+        import tempfile
+        ftext = text.replace("\n", EOLS[eol])
+        fd, path = tempfile.mkstemp(prefix="c02-", suffix=".sm")
+        try:
+            with os.fdopen(fd, "wb") as f:
+                f.write(ftext.encode("utf8"))
+            impl = impl_read(None, path)
+        finally:
+            os.remove(path)
+        model = drv.call("c02.read_file", text=ftext)
+        den = drv.call("c02.denote_file", text=ftext)["ok"]
+        tags.append("file-" + eol)
+    else:
+        impl = impl_read(text)
+        model = drv.call("c02.read", text=text)
+        den = drv.call("c02.denote", text=text)["ok"]
     detail = {}
     maxdev = 0.0
     boundary = False
